@@ -281,8 +281,44 @@ func (m *Machine) floatBinop(op token.Token, a, b *Term) Value {
 		}
 		return m.st.BNot(eq)
 	}
-	m.unsupported("float operation %s on symbolic operands", op)
-	return nil
+	switch op {
+	case token.LSS, token.LEQ, token.GTR, token.GEQ:
+		// IEEE ordered comparison on bit patterns (exact): false when either is
+		// NaN; zeros of either sign are equal; otherwise sign-magnitude order
+		x, y := a, b
+		if op == token.GTR || op == token.GEQ {
+			x, y = b, a
+		}
+		expMask := uint64(0x7ff) << 52
+		fracMask := (uint64(1) << 52) - 1
+		if w == 32 {
+			expMask = uint64(0xff) << 23
+			fracMask = (uint64(1) << 23) - 1
+		}
+		st := m.st
+		isNaN := func(t *Term) *Term {
+			return st.BAnd(st.Eq(st.BV(OpAnd, t, st.Const(w, expMask)), st.Const(w, expMask)),
+				st.Ne(st.BV(OpAnd, t, st.Const(w, fracMask)), st.Const(w, 0)))
+		}
+		mag := func(t *Term) *Term { return st.BV(OpAnd, t, st.Const(w, signless)) }
+		neg := func(t *Term) *Term { return st.Ne(st.BV(OpAnd, t, st.Const(w, signless+1)), st.Const(w, 0)) }
+		mx, my := mag(x), mag(y)
+		bothZero := st.BAnd(st.Eq(mx, st.Const(w, 0)), st.Eq(my, st.Const(w, 0)))
+		less := st.BOr(st.BAnd(neg(x), st.BNot(neg(y))),
+			st.BOr(st.BAnd(st.BAnd(st.BNot(neg(x)), st.BNot(neg(y))), st.Ult(mx, my)),
+				st.BAnd(st.BAnd(neg(x), neg(y)), st.Ult(my, mx))))
+		less = st.BAnd(less, st.BNot(bothZero))
+		ordered := st.BAnd(st.BNot(isNaN(x)), st.BNot(isNaN(y)))
+		if op == token.LEQ || op == token.GEQ {
+			eq := st.BOr(st.Eq(x, y), bothZero)
+			return st.BAnd(ordered, st.BOr(less, eq))
+		}
+		return st.BAnd(ordered, less)
+	}
+	// arithmetic on symbolic floats is outside the encoding (no FP theory):
+	// the operands are sampled at boundary values (under-approximation,
+	// reported as inconclusive unless a violation is found)
+	return m.floatBinop(op, m.sampleFloat(a, "float operand of "+op.String()), m.sampleFloat(b, "float operand of "+op.String()))
 }
 
 func (m *Machine) termBinop(op token.Token, XT types.Type, a, b *Term, YT types.Type) Value {
@@ -567,7 +603,7 @@ func (m *Machine) convert(from, to types.Type, x Value) Value {
 					}
 					return m.st.Const(64, math.Float64bits(f))
 				}
-				m.unsupported("int to float on symbolic value")
+				return m.convert(from, to, m.sampleInt(v, fb.Info()&types.IsUnsigned != 0, "integer converted to float"))
 			case ff && !tf:
 				if v.IsConst() {
 					var f float64
@@ -581,7 +617,7 @@ func (m *Machine) convert(from, to types.Type, x Value) Value {
 					}
 					return m.st.Const(tw, uint64(int64(f)))
 				}
-				m.unsupported("float to int on symbolic value")
+				return m.convert(from, to, m.sampleFloat(v, "float converted to integer"))
 			}
 		}
 	case *types.Slice:
